@@ -499,6 +499,12 @@ package stdlib
 //@   ensures [years] !ispart(str_lower(name), "nanos") && !ispart(str_lower(name), "seconds") && !ispart(str_lower(name), "minutes") && !ispart(str_lower(name), "hours") && !ispart(str_lower(name), "days") && !ispart(str_lower(name), "months") && ispart(str_lower(name), "years") ==> result == "2006"
 //@   ensures [unknown] (result == "") == (!ispart(str_lower(name), "nanos") && !ispart(str_lower(name), "seconds") && !ispart(str_lower(name), "minutes") && !ispart(str_lower(name), "hours") && !ispart(str_lower(name), "days") && !ispart(str_lower(name), "months") && !ispart(str_lower(name), "years"))
 
+// buckettime prints the parsed instant with exactly the layout its bucket name stands for
+//@ func kfBucketTime$1
+//@   assert at "return t.Format(" : $arg1 == *bucketFormat
+//@ func kfBucketTime
+//@   assert at "return smartDateParseWrapper(" : bucketFormat != "" && $arg0 == parseFormat && $arg2 == args[0]
+
 // ---- C17: {$ a b c} / {@ a b c} keep every argument, empty ones included ----
 // join_n(args, ctx, d, n): the first n argument values with d between consecutive ones - an empty
 // first (or any other) argument still counts as an element.
